@@ -25,6 +25,10 @@ class Infeasible(Exception):
     pass
 
 
+class PathEnd(Exception):
+    """deliberate end of a path (e.g. after the inductive step of a loop); obligations are kept"""
+
+
 class Ctx:
     cur = None
 
@@ -474,6 +478,8 @@ def explore(fn, setup=None, max_paths=256):
             out.append((res, c))
         except Infeasible:
             pass
+        except PathEnd:
+            out.append((None, c))
         finally:
             Ctx.cur = None
         work.extend(c.alts)
@@ -495,3 +501,110 @@ def prove(pc, goal, timeout_ms=20000):
     if r == z3.sat:
         return 'invalid', s.model(), time.time() - t0
     return 'unknown', s.reason_unknown(), time.time() - t0
+
+
+# ===========================================================================
+# maps (dict model) and mechanical block extraction for loop-invariant reasoning
+KEY = z3.IntSort()
+
+
+class SDict:
+    """symbolic dict: dom : Key -> Bool, val : Key -> V (z3 arrays); mutations are logged."""
+
+    def __init__(self, name, valsort=None, dom=None, val=None):
+        self.name = name
+        self.valsort = valsort
+        self.dom = dom if dom is not None else z3.Array(name + '.dom', KEY, z3.BoolSort())
+        self.val = val if val is not None else (z3.Array(name + '.val', KEY, valsort) if valsort is not None else None)
+        self.log = []
+
+    def has(self, k):
+        return z3.Select(self.dom, to_z3(k))
+
+    def __contains__(self, k):
+        return ctx().branch(self.has(k))
+
+    def __getitem__(self, k):
+        ctx().require(f'{self.name}[{k}]: key present (no KeyError)', self.has(k))
+        if self.val is None:
+            return DVal(self, k)
+        return Z(z3.Select(self.val, to_z3(k)))
+
+    def __setitem__(self, k, v):
+        self.log.append(('set', k, v))
+        self.dom = z3.Store(self.dom, to_z3(k), z3.BoolVal(True))
+        if self.val is not None:
+            self.val = z3.Store(self.val, to_z3(k), to_z3(v))
+
+    def __delitem__(self, k):
+        ctx().require(f'del {self.name}[{k}]: key present (no KeyError)', self.has(k))
+        self.log.append(('del', k))
+        self.dom = z3.Store(self.dom, to_z3(k), z3.BoolVal(False))
+
+    def get(self, k, default=None):
+        raise PathAbort('SDict.get on a generic map; use a function model')
+
+    def items(self):
+        return GenItems(self)
+
+    def keys(self):
+        return GenItems(self, keys_only=True)
+
+    def values(self):
+        return ('values-of', self)
+
+    def snapshot(self):
+        return (self.dom, self.val)
+
+
+class DVal:
+    """opaque value stored in a map (an array held in AurelCore.data)"""
+
+    def __init__(self, d, k):
+        self.d, self.k = d, k
+
+
+class GenItems:
+    """iteration over a symbolic map: the body runs once for a generic present key"""
+
+    def __init__(self, d, keys_only=False):
+        self.d, self.keys_only = d, keys_only
+
+    def __iter__(self):
+        raise PathAbort('loop over a symbolic map must be verified through its extracted body')
+
+    def __str__(self):
+        return '<keys>'
+
+
+def fmt_noop(self, spec):
+    return ''
+
+
+Z.__format__ = fmt_noop
+
+
+def extract_loops(func):
+    """AST of the real function -> (funcdef, [loop nodes in source order])"""
+    import ast
+    import inspect
+    import textwrap
+    tree = ast.parse(textwrap.dedent(inspect.getsource(func))).body[0]
+    loops = [n for n in ast.walk(tree) if isinstance(n, (ast.For, ast.While))]
+    loops.sort(key=lambda n: (n.lineno, n.col_offset))
+    return tree, loops
+
+
+def run_block(stmts, glb, loc, filename='<extracted>'):
+    """execute a list of real statements (ast nodes) in namespace loc; `break` is caught.
+    returns True if the block completed without `break`."""
+    import ast
+    body = list(stmts) + [ast.Assign(targets=[ast.Name(id='_completed', ctx=ast.Store())], value=ast.Constant(True)),
+                          ast.Break()]
+    wrapper = ast.While(test=ast.Constant(True), body=body, orelse=[])
+    mod = ast.Module(body=[ast.Assign(targets=[ast.Name(id='_completed', ctx=ast.Store())], value=ast.Constant(False)),
+                           wrapper], type_ignores=[])
+    ast.fix_missing_locations(mod)
+    code = compile(mod, filename, 'exec')
+    exec(code, glb, loc)
+    return loc.pop('_completed')
